@@ -588,7 +588,15 @@ class Interp:
         if len(cands) == 1 and re.match(r'^[a-z_][\w:]*$', cname):
             sub = Interp(self.prog, self.ctx, self.inline, self.opaque, self.max_paths)
             sub.fresh = self.fresh + 100
-            return [(p.pc, p.result) for p in sub.run(cands[0], a, pc)]
+            try:
+                return [(p.pc, p.result) for p in sub.run(cands[0], a, pc)]
+            except Unsupported:
+                if not getattr(self, 'opaque_on_failure', False):
+                    raise
+                # the body is outside the interpreted subset: keep the call as an uninterpreted application of its arguments
+                calls.append(n)
+                self.fresh += 1
+                return [(pc, Obj('opaque%d:%s' % (self.fresh, cname.split('::')[-1])))]
         raise Unsupported('call to ' + n)
 
     # -- driver -----------------------------------------------------------------------------------------
